@@ -20,6 +20,11 @@ import traceback
 from . import coqrun, findings, pool
 
 VERIF = coqrun.VERIF
+# A run against another tree than /repo (seeded changes, fix branches: PHYLIB_REPO=/tmp/...) must not
+# overwrite the committed evidence or mix its replays with those of /repo.
+ALT = os.path.realpath(os.environ.get('PHYLIB_REPO') or '/repo') != '/repo'
+REPLAY_DIR = os.path.join('work', 'alt-replays') if ALT else 'replays'
+EVIDENCE_DIR = os.path.join('work', 'alt-evidence') if ALT else 'evidence'
 
 
 def _key(case):
@@ -70,8 +75,8 @@ def _shrink(prop, pid, case, codes, workdir, timeout_s, tagset, rounds=12, width
 
 
 def _write_replay(pid, tier, seed, n, kind, prop, case, obs, codes, extra=None):
-    os.makedirs(os.path.join(VERIF, 'replays'), exist_ok=True)
-    path = os.path.join('replays', '%s_%s_%d.json' % (pid, seed, n))
+    os.makedirs(os.path.join(VERIF, REPLAY_DIR), exist_ok=True)
+    path = os.path.join(REPLAY_DIR, '%s_%s_%d.json' % (pid, seed, n))
     clauses = getattr(prop, 'CLAUSES', {})
     doc = {
         'property': pid, 'tier': tier, 'seed': seed, 'kind': kind,
@@ -147,6 +152,16 @@ def _main(pid, tier, seed, args, workdir, t0):
     print('[%s] proofs: %d/%d theorems of %s/Props.v re-checked, all assumptions %s (%.0fs)' % (
         pid, proofs['discharged'], proofs['obligations'], pid,
         'closed/stdlib' if proofs_ok else 'NOT OK', time.time() - t0))
+
+    chk = None
+    if tier == 'thorough' and not args.replay and proofs_ok:
+        chk = coqrun.coqchk(pid)
+        print('[%s] coqchk -o PV.%s.Props: %s, axioms: %s (%.0fs)' % (
+            pid, pid, 'ok' if chk['ok'] else 'NOT OK', chk['axioms'], chk['wall_s']))
+        if not chk['ok']:
+            print(chk['log'])
+            print('coqchk rejects the compiled development (machinery failure)')
+            return 2
 
     # 3. correspondence -------------------------------------------------------------------------
     rng = random.Random(seed)
@@ -270,6 +285,8 @@ def _main(pid, tier, seed, args, workdir, t0):
                                'case shards evaluating PV.%s.Corr.run with vm_compute' % (pid, nshards, pid),
                 'trusted_base': list(getattr(prop, 'TRUSTED', [])) + COMMON_TRUSTED,
                 'theorems': proofs['theorems'],
+                'coqchk': ({'cmd': 'coqchk -silent -o -Q theories PV PV.%s.Props' % pid, 'axioms': chk['axioms'],
+                            'summary': chk['summary']} if chk else 'run in the thorough tier only'),
                 'evaluations': len(cases),
                 'distinct_nontrivial': len(nontriv),
                 'rule': prop.RULE,
@@ -283,8 +300,8 @@ def _main(pid, tier, seed, args, workdir, t0):
             'wall_s': round(time.time() - t0, 2),
             'violations': n_viol,
         }
-        os.makedirs(os.path.join(VERIF, 'evidence'), exist_ok=True)
-        with open(os.path.join(VERIF, 'evidence', pid + '.json'), 'w') as f:
+        os.makedirs(os.path.join(VERIF, EVIDENCE_DIR), exist_ok=True)
+        with open(os.path.join(VERIF, EVIDENCE_DIR, pid + '.json'), 'w') as f:
             json.dump(ev, f, indent=1, default=str)
     print('[%s] %s tier done in %.0fs: %s' % (pid, tier, time.time() - t0,
                                                'OK' if not n_viol else '%d violation line(s)' % n_viol))
